@@ -29,6 +29,18 @@ class Trace:
         self.latency = None       # callable(kind, key) -> seconds
         self.fail = None          # callable(kind, key) -> Exception or None
 
+    def __getstate__(self):
+        d = dict(self.__dict__)
+        d["events"] = []
+        d.pop("lock", None)
+        d["latency"] = None
+        d["fail"] = None
+        return d
+
+    def __setstate__(self, d):
+        self.__dict__.update(d)
+        self.lock = threading.Lock()
+
     def record(self, kind, key, info=None, t0=None):
         task = getattr(CURRENT, "task", None)
         t1 = time.monotonic_ns()
